@@ -324,7 +324,15 @@ def runLine (st : DState) (j : Json) : DState × Option Json :=
     let r : Req := digest
       { method := L (jS j "method"), host := L (jS j "host"), tls := jB j "tls", path := L (jS j "path"), rawURI := L (jS j "rawURI"),
         qError := L (jS j "qError"), qErrDesc := L (jS j "qErrDesc"), qState := L (jS j "qState"), qCode := L (jS j "qCode"), hdrs := hdrs }
-    let (o, jarF) := serveJar st.cfg e r (jarOf st st.b) fuel
+    -- a request the browser sent without its cookies: served on an empty jar; the answer's Set-Cookie lines are applied to the jar the
+    -- browser holds (a Save rewrites the three fixed cookies; chunk cookies are deleted only if the request carried them)
+    let withheld := jB j "withheld"
+    let held := jarOf st st.b
+    let (o, jarS) := serveJar st.cfg e r (if withheld then (fun _ => none) else held) fuel
+    let jarF : Jar := if !withheld then jarS else if o.saved.isEmpty then held else
+      fun n => match n with
+        | .chunk .. => (match jarS n with | some x => some x | none => held n)
+        | _ => jarS n
     let jar' := ofTab (toTab 300 jarF)
     -- which token (if any) went through VerifyToken at this step: update the instance's verifier state
     let verified : Option Str := match o.calls with
